@@ -330,6 +330,7 @@ type diskTrack struct {
 
 	writer    mkvcore.BlockWriteCloser
 	builder   *samplebuilder.SampleBuilder
+	maxLate   uint16
 	lastSeqno maybeUint32
 
 	origin maybeUint32
@@ -389,8 +390,10 @@ func newDiskConn(client *Client, up conn.Up, remoteTracks []conn.UpTrack) (*disk
 
 	for _, remote := range tracks {
 		var builder *samplebuilder.SampleBuilder
+		maxLate := uint16(videoMaxLate)
 		codec := remote.Codec()
 		if strings.EqualFold(codec.MimeType, "audio/opus") {
+			maxLate = audioMaxLate
 			builder = samplebuilder.New(
 				audioMaxLate,
 				&codecs.OpusPacket{}, codec.ClockRate,
@@ -422,6 +425,7 @@ func newDiskConn(client *Client, up conn.Up, remoteTracks []conn.UpTrack) (*disk
 		track := &diskTrack{
 			remote:  remote,
 			builder: builder,
+			maxLate: maxLate,
 			conn:    &conn,
 		}
 		conn.tracks = append(conn.tracks, track)
@@ -488,6 +492,11 @@ func (t *diskTrack) Write(buf []byte) (int, error) {
 			if count >= 512 {
 				t.lastSeqno = none
 				requestKeyframe(t)
+			} else if count > t.maxLate {
+				// too late to be of any use; the
+				// samplebuilder would take it for a new
+				// start and write it out of order
+				return len(buf), nil
 			}
 		}
 	} else {
